@@ -171,6 +171,31 @@ register('C18',
          'DESIGN.md 5/C18')
 
 
+register('C04',
+         'FactorCriteria.tla states the documented regions as closed forms (Fermat: steps < max_steps, exact both ways; equal low/high '
+         'bits: r >= 3 and 4(r+s) >= bits + 8; the six FIPS-misreading differences with primes >= 384 bits; listed unseeded outputs '
+         'and their top-bit variants). FamilyGrid.tla generates with TLC the boundary cells (steps - max_steps in -2..1 for step '
+         'bounds 1/2/1000/100000 and prime sizes 64..1024 (2048 thorough); (r, s) on and next to the line; every D x L). The harness '
+         'builds a modulus per cell (exact Fermat step count, exact common bits), computes its attributes from p and q, runs the '
+         'family\'s checks on protobufs, and ChecksTrace.tla applies the criterion: must flag / must not flag / both primes '
+         'recorded, plus all bookkeeping and evidence clauses.',
+         'Trusted: TLC, pv.weak abstraction map, gmpy2 primality. Completeness of the Lehman/continued-fraction step is the claim '
+         'itself: catalogue instances (seed derived from the cell). Quick tier stops at 1024-bit primes and 7 listed outputs per size.',
+         'TLA+ criteria (FactorCriteria.tla) + TLC-generated boundary grid (FamilyGrid.tla) replayed on constructed moduli + TLC trace validation (ChecksTrace.tla)',
+         'DESIGN.md 5/C04')
+register('C05',
+         'FactorCriteria.tla gives the regions for word repetitions (w in the default list, 16 w <= bits, <= 32 deviating low bits), '
+         'swapped-limb repetitions (limb 8/16/32/64, odd pattern length, 10 * denominator bits <= bits), both primes repeating words '
+         '<= 64 bits, Hamming weights <= 32, shared 2^20-smooth part >= 2^60 with one smooth side (factored unless both are smooth). '
+         'FamilyGrid.tla generates the cells with TLC (sizes 1024/2048, thorough 3072/4096); a modulus is built per cell, its actual '
+         'attributes are computed from p and q, the family\'s check runs on protobufs and ChecksTrace.tla applies the criterion '
+         '(must flag, both primes recorded where the statement says factored, severity rule of CheckLowHammingWeight).',
+         'Trusted: TLC, pv.weak abstraction map. Why the 3-dimensional lattice / best-first search succeeds is outside the model: the '
+         'specification states that it must on the documented region; catalogue instances.',
+         'TLA+ criteria (FactorCriteria.tla) + TLC-generated family grid replayed on constructed moduli + TLC trace validation (ChecksTrace.tla)',
+         'DESIGN.md 5/C05')
+
+
 def main():
   props = [json.loads(l)['id'] for l in open(os.path.join(HOME, 'properties.jsonl'))]
   checks = []
